@@ -10,7 +10,7 @@ static bool g_pipe_full; static size_t g_pipe_len, g_write_calls; static void *g
 ssize_t v_write(int fd, const void *buf, size_t n) {
     g_write_calls++; g_write_fd = fd;
     V_CHECK("C08.one-pointer-per-write", n == sizeof(void *));
-    if (g_pipe_full) { g_errno = EAGAIN; return -1; }
+    if (g_pipe_full) { errno = EAGAIN; return -1; }
     memcpy(&g_pipe_last, buf, sizeof(void *)); g_pipe_len++;
     return (ssize_t)sizeof(void *);
 }
@@ -35,7 +35,10 @@ void h_tell_if_real(void) {
     g_oom_mask = (vin_oom & 1) << g_alloc_calls;
     int r = tell_if(&callers_msg, vin_has_key ? (const char *)&sub : NULL, &recipient);
     g_oom_mask = 0;
-    bool eligible = (vin_state & (M_MOD_RUNNING | M_MOD_PAUSED)) && (!vin_has_topic || vin_has_key);
+    /* the four call shapes of tell_if(): (no topic, no key) direct tell; (no topic, key = module name) broadcast; (topic, key = matched subscription) publish;
+     * (topic, no key) direct SYSTEM tell to one recipient = the poison pill.  tell_subscribers() calls tell_if() only with the subscription it found, so
+     * "topic without key" is never an unmatched publish: every shape is eligible when the recipient is RUNNING or PAUSED. */
+    bool eligible = (vin_state & (M_MOD_RUNNING | M_MOD_PAUSED)) != 0;
     V_CHECK("C02.tell-returns-zero", r == 0);
     if (!eligible) {
         V_CHECK("C02.non-eligible-module-gets-nothing", g_alloc_calls == a0 && g_write_calls == 0 && g_pipe_len == vin_pipe_len && m_mem_size(sender) == sizeof(m_mod_t)
@@ -49,7 +52,7 @@ void h_tell_if_real(void) {
                 ps_priv_t *copy = g_pipe_last;
                 V_CHECK("C02.copy-carries-sender-topic-payload-flags", copy != NULL && copy != &callers_msg && copy->msg.sender == sender && copy->msg.topic == callers_msg.msg.topic
                                                                         && copy->msg.data == (void *)&payload && copy->flags == callers_msg.flags && !copy->msg.system);
-                V_CHECK("C02.copy-records-the-matched-subscription", copy->sub == (vin_has_topic ? &sub : NULL));
+                V_CHECK("C02.copy-records-the-matched-subscription", copy->sub == ((vin_has_topic && vin_has_key) ? &sub : NULL));
                 V_CHECK("C04.in-flight-message-keeps-its-sender-alive", sh->refs == 2 && g_free_calls == f0);
                 /* when the recipient is done the copy goes away, the sender reference with it; the payload is released iff auto-free was asked */
                 m_mem_unref(copy);
@@ -61,7 +64,7 @@ void h_tell_if_real(void) {
         } else V_CHECK("C02.failed-copy-means-no-delivery", g_write_calls == 0 && g_free_calls == f0);
     }
     V_COVER("tell-direct-running", !vin_has_topic && eligible && !g_pipe_full && !(vin_oom & 1)); V_COVER("tell-publish-matched", vin_has_topic && vin_has_key && g_write_calls == 1);
-    V_COVER("tell-publish-unmatched", vin_has_topic && !vin_has_key); V_COVER("tell-pipe-full", eligible && g_pipe_full && !(vin_oom & 1)); V_COVER("tell-not-eligible-state", vin_state == M_MOD_IDLE);
+    V_COVER("tell-direct-with-topic", vin_has_topic && !vin_has_key && g_write_calls == 1); V_COVER("tell-pipe-full", eligible && g_pipe_full && !(vin_oom & 1)); V_COVER("tell-not-eligible-state", vin_state == M_MOD_IDLE);
     V_CANARY();
 }
 /* one send, two eligible recipients, then both are done with it: the payload of an auto-free send is released exactly once, after the
@@ -93,6 +96,36 @@ void h_send_two_real(void) {
     V_COVER("two-recipients-autofree", nrecip == 2 && autofree); V_COVER("nobody-eligible-autofree", nrecip == 0 && autofree); V_COVER("one-recipient", nrecip == 1);
     V_CANARY();
 }
+/* m_mod_ps_poisonpill() end to end on the real ps.c: an accepted pill is a system message queued at the tail of its recipient's pipe (so it is
+ * handled after everything sent earlier), exactly one copy, for the one recipient */
+static m_ctx_t g_ctxobj; static m_ctx_t *g_mctx;
+m_ctx_t *m_ctx(void) { return g_mctx; }
+void fetch_ms(uint64_t *val, uint64_t *ctr) { *val = 1; if (ctr) (*ctr)++; }
+static bool v_same_str(const char *a, const char *b) { for (size_t i = 0; i < 40; i++) { if (a[i] != b[i]) return false; if (!a[i]) return true; } return false; }
+void h_pill_real(void) {
+    v_inputs_init(); v_base_init();
+    V_ASSUME(v_state_valid(vin_state) && vin_pipe_len < ((uint64_t)1 << 60));
+    static m_mod_t recipient;
+    m_mod_t *sender = m_mem_new(sizeof(m_mod_t), NULL); V_ASSUME(sender != NULL);
+    g_mctx = &g_ctxobj; sender->ctx = &g_ctxobj; sender->state = M_MOD_RUNNING; sender->flags = 0; sender->tb.tokens = 5; sender->stats.sent_msgs = 0; sender->stats.action_ctr = 0;
+    recipient.ctx = &g_ctxobj; recipient.state = (m_mod_states)vin_state; recipient.name = "r"; recipient.pubsub_fd[0] = 7; recipient.pubsub_fd[1] = 8;
+    g_pipe_full = false; g_pipe_len = vin_pipe_len; g_write_calls = 0; g_pipe_last = NULL;
+    int r = m_mod_ps_poisonpill(sender, &recipient);
+    if (vin_state != M_MOD_RUNNING) V_CHECK("C08.pill-for-a-module-that-is-not-running-is-refused", r == -EINVAL && g_write_calls == 0);
+    else {
+        ps_priv_t *copy = g_pipe_last;
+        V_CHECK("C08.accepted-pill-is-queued-at-the-tail-of-its-recipients-pipe", r == 0 && g_write_calls == 1 && g_write_fd == 8 && g_pipe_len == vin_pipe_len + 1 && copy != NULL
+                && copy->msg.system && copy->msg.topic != NULL && v_same_str(copy->msg.topic, M_PS_MOD_POISONPILL) && copy->msg.sender == sender && copy->sub == NULL);
+    }
+    V_COVER("pill-accepted", r == 0); V_COVER("pill-refused", r != 0);
+    V_CANARY();
+}
 #ifdef V_NATIVE
-V_NATIVE_MAIN(V_H(h_tell_if_real), V_H(h_send_two_real))
+/* the native replay links the whole ps.c: the map functions behind publish/broadcast are not reached by these harnesses (a recipient is always given) */
+void *m_map_get(const m_map_t *m, const char *k) { (void)m; (void)k; abort(); }
+m_map_itr_t *m_map_itr_new(const m_map_t *m) { (void)m; abort(); }
+void *m_map_itr_get_data(const m_map_itr_t *i) { (void)i; abort(); }
+int m_map_itr_next(m_map_itr_t **i) { (void)i; abort(); }
+int m_map_iterate(const m_map_t *m, m_map_cb cb, void *up) { (void)m; (void)cb; (void)up; abort(); }
+V_NATIVE_MAIN(V_H(h_tell_if_real), V_H(h_send_two_real), V_H(h_pill_real))
 #endif
